@@ -36,6 +36,17 @@ fn string_depth(t: &Ty) -> usize {
 /// (file, finding class, explanation)
 pub fn expected_rejections(h: &HirSpec) -> Vec<(String, &'static str, String)> {
     let mut out = vec![];
+    // two operations whose names give the same module: `pub mod x;` twice in request/mod.rs, one file for both
+    {
+        let mut seen: std::collections::BTreeMap<String, &hir::Operation> = Default::default();
+        for o in &h.operations {
+            if let Some(first) = seen.get(&o.file_name()) {
+                out.push(("*".into(), "operation_name_collision", format!("operations {} and {} share the module {}", first.name, o.name, o.file_name())));
+            } else {
+                seen.insert(o.file_name(), o);
+            }
+        }
+    }
     for o in &h.operations {
         let file = format!("src/request/{}.rs", o.file_name());
         let non_path: Vec<_> = o.parameters.iter().filter(|p| p.location != Location::Path).collect();
